@@ -194,7 +194,9 @@ unsigned int OneDimensionOptimizationTools::lineMinimization(
   bod.setProfiler(profiler);
   bod.setVerbose(verbose >= 1 ? 1 : 0);
   bod.setOptimizationProgressCharacter(".");
-  bod.getStopCondition()->setTolerance(0.01);
+  // Accuracy of the line minimisation: at least 1%, and as tight as the tolerance requested by the caller
+  // (a fixed 1% makes conjugate directions degrade and the calling optimizer stop early when its tolerance is small).
+  bod.getStopCondition()->setTolerance(tolerance < 0.01 ? tolerance : 0.01);
   bod.setInitialInterval(ax, xx);
   bod.setConstraintPolicy(AutoParameter::CONSTRAINTS_KEEP);
   ParameterList singleParameter;
